@@ -6,7 +6,7 @@ cd "$(dirname "$0")/.."
 # inside `vp run --with-repo` build against the repository snapshot, so that seeded patches
 # applied to /repo meanwhile do not leak into the soak
 if [ -n "${VP_RUN_REPO:-}" ] && [ "$(pwd)" != "/verif" ]; then
-  sed -i "s#path = \"/repo\"#path = \"$VP_RUN_REPO\"#" sim/Cargo.toml
+  sed -i "s#path = \"/repo\"#path = \"$VP_RUN_REPO\"#" sim/Cargo.toml fine/Cargo.toml
 fi
 ./check --build || exit 2
 for seed in $1; do
